@@ -513,6 +513,7 @@ def write_evidence(prop, run, tier, seed):
              "enum-model": "IntEnum under ProtocolEnumMeta modelled as an integer tagged with its class (C14 is outside this technique)",
              "memoryview-as-copy": "memoryview modelled as an immutable copy of the bytes",
              "randrange-contract": "random.randrange(a,b) returns an arbitrary integer in [a,b) and raises ValueError on an empty range",
+             "lru_cache-pure": "functions under functools.lru_cache/cache are taken to be pure when called with symbolic arguments (called through, no memo)",
              "float-division-lemma": "int(a/k) encoded as truncating division; side lemma proved in QF_BVFP for the stated operand range"}
     for u in sorted(used):
         assumptions.append(stubs.get(u, u))
